@@ -185,6 +185,14 @@ def reorder_ops(rnd, n, printer):
     return ops
 
 
+def reversed_ops(n, printer):
+    """the worst arrival order: every serial but the first is held back, then serial 0 releases one run of n - 1 items"""
+    ops = [{"op": "new"}] + [{"op": "print" if printer else "put", "i": i} for i in range(n - 1, 0, -1)]
+    ops += [{"op": "len"}, {"op": "print" if printer else "put", "i": 0}]
+    ops += [{"op": "flush"} if printer else {"op": "drain"}, {"op": "waiting_for"}, {"op": "len"}]
+    return ops
+
+
 def circ_ops(rnd, length):
     ops = [{"op": "new", "cap": rnd.randint(1, 7)}]
     for _ in range(length):
@@ -249,6 +257,15 @@ def run(ctx):
     big = 200
     tr = split_failed([record(BufferAdapter(b, rnd.choice([None, rnd.randrange(big)]), rnd.choice([0, "", 0.0, ()])), reorder_ops(rnd, big, False)) for _ in range(n)], ctx, "ReorderBuffer")
     tracecheck.check_traces(RB, model.constants_block({"N": big, "MaxEpoch": 1, "Variant": '"ok"'}), tr, ctx, "ReorderBuffer", {"put"})
+    # one long run released at once (longer than the interpreter's recursion limit)
+    long_n = 1100
+    from concurrent.futures import ThreadPoolExecutor
+    jobs = []
+    for nm, spec_file, ad, mut in (("ReorderBuffer", RB, BufferAdapter(b), "put"), ("PrintBuffer", PB, PrintAdapter(b), "print")):
+        trl = split_failed([record(ad, reversed_ops(long_n, nm == "PrintBuffer"))], ctx, nm + "_long")
+        jobs.append((spec_file, model.constants_block({"N": long_n, "MaxEpoch": 1, "Variant": '"ok"'}), trl, ctx, nm + "_long", {mut}))
+    with ThreadPoolExecutor(max_workers=2) as ex:       # two JVMs side by side
+        list(ex.map(lambda j: tracecheck.check_traces(*j, timeout=600), jobs))
     tr = split_failed([record(PrintAdapter(b, rnd.choice([None, rnd.randrange(big)])), reorder_ops(rnd, big, True)) for _ in range(n)], ctx, "PrintBuffer")
     tracecheck.check_traces(PB, model.constants_block({"N": big, "MaxEpoch": 1, "Variant": '"ok"'}), tr, ctx, "PrintBuffer", {"print"})
     tr = split_failed([record(CircAdapter(c), circ_ops(rnd, 150)) for _ in range(n)], ctx, "CircularBuffer")
